@@ -356,6 +356,13 @@ func bnorm(v ssa.Value) blin {
 					continue
 				}
 			}
+			// go/ssa does not share common sub-expressions: `h%12 == 0` and a later `h %= 12`
+			// are two instructions. The same pure operation on the same operands is the same
+			// value: use the first such instruction of the function for all of them.
+			if rep := sameBinOp(x); rep != nil && rep != x {
+				v = rep
+				continue
+			}
 		case *ssa.Call:
 			if bi, ok := x.Call.Value.(*ssa.Builtin); ok && bi.Name() == "len" && len(x.Call.Args) == 1 {
 				a := x.Call.Args[0]
@@ -2886,4 +2893,47 @@ func (p *bndProver) edgeFacts(from, to *ssa.BasicBlock) {
 		return
 	}
 	p.condFact(iff.Cond, from.Succs[0] == to, 0)
+}
+
+var sameBinOpCache = map[*ssa.Function]map[string]*ssa.BinOp{}
+
+// sameBinOp: the first instruction of x's function that applies x's operator to x's operands
+// (integer %, /, * and the bit operations with a constant or identical right operand).
+func sameBinOp(x *ssa.BinOp) *ssa.BinOp {
+	switch x.Op {
+	case token.REM, token.QUO, token.MUL, token.AND, token.SHL, token.SHR:
+	default:
+		return nil
+	}
+	if !isSignedInt(x.Type()) || x.Parent() == nil {
+		return nil
+	}
+	key := func(b *ssa.BinOp) string {
+		y := ""
+		if k, ok := intConstOf(b.Y); ok {
+			y = fmt.Sprintf("k%d", k)
+		} else {
+			y = fmt.Sprintf("%p", b.Y)
+		}
+		return fmt.Sprintf("%d/%p/%s", b.Op, b.X, y)
+	}
+	f := x.Parent()
+	m := sameBinOpCache[f]
+	if m == nil {
+		m = map[string]*ssa.BinOp{}
+		for _, b := range f.Blocks {
+			for _, ins := range b.Instrs {
+				if bo, ok := ins.(*ssa.BinOp); ok && isSignedInt(bo.Type()) {
+					switch bo.Op {
+					case token.REM, token.QUO, token.MUL, token.AND, token.SHL, token.SHR:
+						if _, has := m[key(bo)]; !has {
+							m[key(bo)] = bo
+						}
+					}
+				}
+			}
+		}
+		sameBinOpCache[f] = m
+	}
+	return m[key(x)]
 }
